@@ -20,6 +20,7 @@ func init() {
 		ruleA2(c, "C03.T5")
 		ruleNoent(c, "C03.T6")
 		ruleColdRead(c, "C03.T7")
+		ruleR3(c, "C03.T8")
 	}
 }
 
@@ -405,6 +406,7 @@ func ruleT3(c *Ctx, id string) {
 	// --- RENAME uses the relocked inodes only under validateRename == true
 	ren := c.fn(id, "nfs.(*Nfs).NFSPROC3_RENAME")
 	if ren != nil {
+		ruleRoles(c, id, vr, ren, lookup, twoInums)
 		vcalls := P.CallsIn(ren, funcIs(vr))
 		R.Check(len(vcalls) == 1, id, "NFSPROC3_RENAME|calls validateRename", P.Pos(ren.Pos()), "the relock branch of RENAME calls validateRename", "one call", "relock without revalidation")
 		if len(vcalls) == 1 {
@@ -777,6 +779,28 @@ func ruleColdRead(c *Ctx, id string) {
 			n++
 			buf := sc.S.resolve(stripConv(argN(call, 0)))
 			ok, m := derivesOnlyFrom(buf, funcIs(V.LogLoad), 0)
+			// ... and is read under the inode's lock: what was read before the lock was obtained may be out of date by
+			// the time the waiter gets it
+			scopes := scopesOf(V.GetInodeLocked)
+			if ps, other := producersOf(buf); !other {
+				for _, pr := range ps {
+					if pr.call.Call.StaticCallee() != V.LogLoad {
+						continue
+					}
+					var psc Scope
+					for _, s2 := range scopes {
+						if s2.Fn == pr.call.Parent() {
+							psc = s2
+						}
+					}
+					if psc.Fn == nil {
+						continue
+					}
+					top := topInstr(scopes, psc, pr.call)
+					locked := top.Parent() == V.GetInodeLocked && MustBefore(V.GetInodeLocked, NewAlwaysInstr(P, callTo(V.LockInode)))(top)
+					R.Check(locked, id, "fstxn.GetInodeLocked|cold read under the inode lock", P.Pos(pr.call.Pos()), "the inode is read after LockInode returned, on every path", "must-precede", "the inode is read before its lock is held: a request that waits for the lock decodes what it read before the holder changed and committed the inode, and installs that stale copy as the cached inode - the holder's update is lost")
+				}
+			}
 			R.Check(ok && m > 0, id, "fstxn.GetInodeLocked|cold read from the committed state", P.Pos(call.Pos()), "the buffer decoded into the empty cache slot is the result of obj.Log.Load", fmt.Sprintf("every producer of the decoded buffer is obj.Log.Load (%d); %d early-release sites exist", m, early), "the inode is decoded from a buffer that is not read from the committed state (jrnl.Op.ReadBuf answers from the transaction's own buffers: after dir.Apply read and released this inode, a later lock of it in the same transaction works on the stale copy and writes it back)")
 		}
 	}
